@@ -301,7 +301,13 @@ class OscarLoader(BaseLoader):
             first_line = file.readline()
             first_line_list = first_line.replace("\n", "").split(" ")
 
-        if len(first_line_list) == 15 or first_line_list[0] == "#!OSCAR2013":
+        if first_line_list[0] == "#!ASCII":
+            self.oscar_format_ = "ASCII"
+            value_line = first_line_list[2:]
+            self.custom_attr_list = self._set_custom_attr_list(value_line)
+        elif (
+            len(first_line_list) == 15 or first_line_list[0] == "#!OSCAR2013"
+        ):
             self.oscar_format_ = "Oscar2013"
         elif (
             first_line_list[0] == "#!OSCAR2013Extended"
@@ -318,10 +324,6 @@ class OscarLoader(BaseLoader):
             or first_line_list[0] == "#!OSCAR2013Extended"
         ):
             self.oscar_format_ = "Oscar2013Extended"
-        elif first_line_list[0] == "#!ASCII":
-            self.oscar_format_ = "ASCII"
-            value_line = first_line_list[2:]
-            self.custom_attr_list = self._set_custom_attr_list(value_line)
         else:
             raise TypeError(
                 "Input file must follow the Oscar2013, "
